@@ -206,36 +206,19 @@ def status_rules(rep, prog):
     # (i) folds are bitwise-only
     fam = prog.family(st.path)
     ops = set()
-    for b in fam[1:]:
+    for b in fam:
         for _bi, _si, s in b.stmts():
-            if s["k"] == "Assign" and s["rv"]["k"] in ("BinaryOp", "UnaryOp"):
+            if s["k"] == "Assign" and s["rv"]["k"] in ("BinaryOp", "UnaryOp") and s["rv"].get("ty") == "u8":
                 ops.add(s["rv"]["op"])
-        for _bi, t in b.calls():
-            ops.add("call:" + t["callee"]["path"])
-    bitwise = ops <= {"BitAnd", "BitOr", "Not"}
-    rep.inst("C03.D4", "status(): fold closures use only bitwise operators %s: %s" % (sorted(ops), bitwise), config=cfg)
+    bitwise = ops <= {"BitAnd", "BitOr", "Not", "Eq", "Ne"}
+    rep.inst("C03.D4", "status(): outcodes (u8) are combined with bitwise operators and compared with 0 only %s: %s" % (sorted(ops), bitwise), config=cfg)
     adt = prog.adt(CLIPVERT)
     names = adt["variants"][0]["fields"]
-
-    def m_iter(it, args, callee, depth):
-        return ("iter", args[0], [0])
-
-    def m_fold(it, args, callee, depth):
-        itv, acc, f = args[0], args[1], args[2]
-        if not (isinstance(itv, tuple) and itv[0] == "iter"):
-            raise A.Undecided("fold over unknown iterator")
-        arr = it.load_ref(itv[1])
-        if not (isinstance(arr, tuple) and arr[0] == "array"):
-            raise A.Undecided("fold over non-array")
-        for i in range(len(arr[1])):
-            r = itv[1]
-            elem = ("ref", r[1], r[2], list(r[3]) + [{"ci": i, "ml": 0, "fe": False}])
-            acc = it.invoke(f, [acc, elem], depth)
-        return acc
+    from . import symalg as S_
     table = {}
     bad = 0
     for codes in itertools.product([0, 1, 2, 3], repeat=3):
-        it = A.Interp(prog, models={"<impl [T]>::iter": m_iter, "Iterator::fold": m_fold})
+        it = S_.interp(prog)        # iterator chains, folds and plain loops alike
         vs = ("array", [("adt", CLIPVERT, "ClipVert", [c if n == "outcode" else A.UNKNOWN for n in names]) for c in codes])
         cell = A.Frame(None)
         cell.locals[0] = vs
@@ -320,7 +303,10 @@ def clip_loop_rules(rep, prog):
         v = T.strip(val, refs=True)
         from_iter = T.contains(v, lambda s: s[0] == "downcast" and s[2] == "Some" and T.calls_in(s[1], "Iterator::next"))
         untouched = not T.contains(v, lambda s: s[0] == "call" and not any(k in s[1] for k in ("Iterator::next", "clone", "into_iter", "<impl [T]>::iter")))
-        must = all(G.must_pass(b, dst, [bi], heads) for (_s, dst, _l) in vis)
+        # following the Visible arm at EVERY switch on the status (there may be several: `if let Visible = st {..} if let Visible | Hidden = st {..}`),
+        # every path from the status() call to the next triangle passes this push
+        st_blocks = [bj for bj, _t in b.calls(lambda c: facts.callee_matches(c, "view_frustum::status"))]
+        must = bool(st_blocks) and all(G.must_pass(b, b.term(bj)["t"], [bi], heads, removed_edges=set(hid) | set(cli), unwind=False) for bj in st_blocks)
         if from_iter and untouched and must and facts.callee_matches(t["callee"], "Vec::<T, A>::push"):
             ok_push = True
     rep.inst("C03.D1", "Visible arm: pushes the loop's own triangle unchanged (%s), clipping reachable: %s, emits: %d"
@@ -415,7 +401,9 @@ def clip_loop_rules(rep, prog):
 
 def lerp_rules(rep, prog):
     cfg = prog.config
-    b = prog.body(PLANE_CLIP)
+    b0 = prog.body(PLANE_CLIP)
+    # private helpers of clip.rs (an extracted crossing test, say) are seen through; signed_dist stays a named function
+    b = prog.inlined(b0, depth=2, pred=lambda cb: (not cb.is_pub) and cb.file == b0.file and not cb.path.endswith("signed_dist"))
     sl = T.Slicer(b)
     lerps = [(bi, t) for bi, t in b.calls(lambda c: facts.callee_matches(c, "math::Lerp::lerp"))]
     rep.floor("C03.D3.lerps", len(lerps), 2, "Lerp::lerp calls in ClipPlane::clip_simple_polygon")
@@ -439,8 +427,23 @@ def lerp_rules(rep, prog):
             rep.violate("C03.D3", "D3|param", b.where(a[0], None), "attribute and position are interpolated with different parameters: %s vs %s" % (T.show(a[3]), T.show(p[3])), config=cfg)
         # t * (d1 - d0) == -d0
         tt = p[3]
-        while tt[0] == "phi" and len(tt[2]) == 1:
-            tt = tt[2][0]
+
+        def peel(t):
+            """(phi(Some{X} | None{} ...) as Some).0  ->  X : the payload of an Option built in one place and matched in another"""
+            for _ in range(6):
+                t0 = t
+                while t[0] == "phi" and len(t[2]) == 1:
+                    t = t[2][0]
+                if t[0] == "field" and t[2] in ("Option.0", "0") and t[1][0] == "downcast" and t[1][2] == "Some":
+                    inner = t[1][1]
+                    alts = list(inner[2]) if inner[0] == "phi" else [inner]
+                    somes = [a_ for a_ in alts if a_[0] == "agg" and a_[1].endswith("Some") and a_[2]]
+                    if len(somes) == 1 and all(a_ in somes or (a_[0] == "agg" and a_[1].endswith("None")) for a_ in alts):
+                        t = somes[0][2][0]
+                if t is t0:
+                    break
+            return t
+        tt = peel(tt)
 
         def dist_of(v):
             return lambda t: t[0] == "call" and "ClipPlane::signed_dist" in t[1] and T.strip(t[2][1], refs=True) == ("field", v, "ClipVert.pos")
